@@ -11,7 +11,13 @@ class _OldRewriter(ast.NodeTransformer):
         self.generic_visit(node)
         if isinstance(node.func, ast.Name) and node.func.id == "old" and len(node.args) == 1:
             return ast.Call(func=ast.Name(id="__oldeval__", ctx=ast.Load()),
-                            args=[ast.Constant(ast.unparse(node.args[0]))], keywords=[])
+                            args=[ast.Constant(ast.unparse(node.args[0])), ast.Call(func=ast.Name(id="locals", ctx=ast.Load()), args=[], keywords=[])], keywords=[])
+        if isinstance(node.func, ast.Name) and node.func.id == "implies" and len(node.args) == 2:
+            # short-circuit (python evaluates call arguments eagerly; the clause language is lazy here)
+            return ast.BoolOp(op=ast.Or(), values=[ast.UnaryOp(op=ast.Not(), operand=node.args[0]), node.args[1]])
+        if isinstance(node.func, ast.Name) and node.func.id == "at" and len(node.args) == 2:
+            return ast.Call(func=ast.Name(id="__ateval__", ctx=ast.Load()),
+                            args=[node.args[0], ast.Constant(ast.unparse(node.args[1])), ast.Call(func=ast.Name(id="locals", ctx=ast.Load()), args=[], keywords=[])], keywords=[])
         return node
 
 
@@ -25,8 +31,15 @@ def implies(a, b):
     return (not a) or bool(b)
 
 
+UNIVERSE = list(range(-2, 14))
+
+
 def forall(f, lo=None, hi=None):
     n = f.__code__.co_argcount
+    if lo is None:
+        import itertools as _it
+
+        return all(f(*t) for t in _it.product(UNIVERSE, repeat=n))
     if n == 1:
         return all(f(i) for i in range(lo, hi))
     import itertools
@@ -36,6 +49,10 @@ def forall(f, lo=None, hi=None):
 
 def exists(f, lo=None, hi=None):
     n = f.__code__.co_argcount
+    if lo is None:
+        import itertools as _it
+
+        return any(f(*t) for t in _it.product(UNIVERSE, repeat=n))
     if n == 1:
         return any(f(i) for i in range(lo, hi))
     import itertools
@@ -48,10 +65,13 @@ def base_env(contract, inputs, ne_inputs=None):
     ne = getattr(contract, "native_env", None)
     if callable(ne):
         ne = ne(ne_inputs if ne_inputs is not None else inputs)
+    env["cnt"] = lambda lst, x: list(lst).count(x)
     env.update(ne or {})
     env.update(inputs)
     for name, g in contract.ghost.items():
         exec(g.src.strip(), env)
+    for name, src in getattr(contract, "defs", {}).items():
+        env[name] = eval(src, env)
     return env
 
 
@@ -73,6 +93,9 @@ def default_call(contract, inputs):
 def run_case(contract, inputs, only_label=None):
     """Run the real function on ``inputs`` (dict) and evaluate the contract natively.
     Returns dict(status='pass'|'fail'|'pre-false'|'error', failed=[labels], observed=...)."""
+    prep = getattr(contract, "native_prepare", None)
+    if prep is not None:
+        inputs = prep(copy.deepcopy(inputs))
     pre_env = base_env(contract, copy.deepcopy(inputs))
     for lbl, rq in contract.requires.items():
         try:
@@ -100,9 +123,42 @@ def run_case(contract, inputs, only_label=None):
     except BaseException as e:  # noqa
         exc = e
     env = base_env(contract, call_inputs, ne_inputs=old_inputs)
-    env.update(extra)
     old_env = base_env(contract, old_inputs)
-    env["__oldeval__"] = lambda s: eval(compile_clause(s), old_env)
+    def _oldeval(s, loc=None):
+        e = dict(old_env)
+        for k_, v_ in (loc or {}).items():
+            if k_ not in e or k_ in ("x", "k", "j", "i", "q"):
+                e[k_] = v_
+        for name_, src_ in getattr(contract, "defs", {}).items():
+            e[name_] = eval(src_, e)
+        return eval(compile_clause(s), e)
+
+    snaps = extra.pop("__snapshots__", {}) if isinstance(extra, dict) else {}
+
+    def _ateval(label, s, loc=None):
+        if label not in snaps:
+            raise _Vacuous()
+        e = dict(env)
+        e.update(loc or {})
+        e.update(snaps[label])
+        for name_, src_ in getattr(contract, "defs", {}).items():
+            e[name_] = eval(src_, e)
+        return eval(compile_clause(s), e)
+
+    env["__oldeval__"] = _oldeval
+    old_env["__oldeval__"] = _oldeval
+    env["__ateval__"] = _ateval
+    logs = extra.pop("__logs__", {}) if isinstance(extra, dict) else {}
+    env["log"] = lambda n: logs.get(n, [])
+    env.update(extra)
+    import collections as _c
+
+    for d_ in [env, old_env] + list(snaps.values()):
+        for k_, v_ in list(d_.items()):
+            if isinstance(v_, _c.deque):
+                d_[k_] = list(v_)  # clause language: deques are sequences (slicing, +, == with lists)
+    for name_, src_ in getattr(contract, "defs", {}).items():
+        env[name_] = eval(src_, env)
     failed = []
     observed = {"result": repr(result)[:2000], "exception": repr(exc) if exc is not None else None}
     if exc is None:
@@ -123,6 +179,8 @@ def run_case(contract, inputs, only_label=None):
                 continue
             try:
                 ok = bool(eval(compile_clause(en), env))
+            except _Vacuous:
+                ok = True
             except Exception as e:  # noqa
                 ok = False
                 observed.setdefault("clause_errors", {})[lbl] = repr(e)
@@ -152,6 +210,10 @@ def run_case(contract, inputs, only_label=None):
                 if not ok:
                     failed.append("ensures-exc[%s]" % lbl)
     return {"status": "fail" if failed else "pass", "failed": failed, "observed": observed}
+
+
+class _Vacuous(Exception):
+    pass
 
 
 def _exc_matches(exc, clsname):
